@@ -9,6 +9,9 @@ NOTE_COMMON = ("Trusted: go/ssa lowering (x/tools v0.29.0), the symgo executor's
                "in the evidence file (coverage.bounds / coverage.outside_claim) and DESIGN.md. unknown/timeout/unsupported are reported "
                "as INCONCLUSIVE, never as success or violation. ")
 claimed = {
+ 'C15': dict(cat='model_checking', ref='5/C15',
+   text="Real QoS rule / flow description parsers executed on every byte string up to 8 (11) octets (no panic, terminates; every unknown parameter identifier and component type proved to be an error). Shape-directed symbolic lists (every operation, 0/1/2/15 filters, each of the 18 component kinds alone and all in one filter; every parameter kind) are serialised by the real code, proved byte-identical to an encoder written from TS 24.501 9.11.4.12/13, parsed back by the real code and proved field-wise equal.",
+   note="Interfaces are dispatched on their concrete type per path."),
  'C16': dict(cat='model_checking', ref='5/C16',
    text="Real PCO Marshal/UnMarshal executed symbolically: round trip of every list shape up to 3 (4) units with symbolic identifiers and contents proved to reproduce the specified layout (0x80 first) and equal units; UnMarshal on every byte string up to 8 (10) octets proved panic-free, non-mutating and to return only octets of the input at their positions. PSIToBuf/PSIToBooleanArray proved mutually inverse for all 65536 values in one query each; error-cause interleaving for all list lengths 0..4.",
    note="Contents per unit <= 3 (6) octets."),
